@@ -16,6 +16,8 @@ MInit == /\ Init
 MNext == /\ Len(hist) <= Depth
          /\ \/ BeginBlock /\ hist' = Append(hist, Rec("Block", params))
             \/ LET p == RandomElement(ParamSpace) IN ParamChange(p) /\ hist' = Append(hist, Rec("ParamChange", p))
+            \/ LET d == RandomElement(Denoms \cup {"default"})  on == RandomElement({TRUE, FALSE, FALSE}) IN
+                  BankSwitch(d, on) /\ hist' = Append(hist, [act |-> "BankSwitch", params |-> params, pool |-> pool', sink |-> sink', moved |-> Zero, denom |-> d, on |-> on])
 
 MSpec == MInit /\ [][MNext]_<<vars, hist>>
 
